@@ -52,6 +52,9 @@ def m_drop_last():
     remake(DEL, "_multi_deletion", "results = extract_knockout_results(\n                    pool.imap_unordered(worker, args, chunksize=chunk_size)", "results = extract_knockout_results(\n                    pool.imap_unordered(worker, list(args)[: chunk_size * processes], chunksize=chunk_size)")
 def m_second_list_all():
     remake(DEL, "_element_lists", "result.append(result[-1])", "result.append(_entities_ids(entities))")
+def m_moma_infeasible_growth_unchecked():
+    # reverts /repo e882884: the primal of moma_old_objective is read whatever the status (the defect found by this driver)
+    remake(DEL, "_get_growth", "if not isnan(growth):", "if True:")
 def m_moma_growth_is_distance():
     remake(DEL, "_get_growth", "growth = model.solver.variables.moma_old_objective.primal", "growth = model.solver.objective.value")
 def m_moma_ref_fba():
